@@ -176,6 +176,11 @@ def _tree_map(en, f, tree, *rest, is_leaf=None):
   """jax.tree_util.tree_map over tuples/lists/dicts; anything else is a leaf; None is an empty node."""
   if tree is None:
     return None
+  if isinstance(tree, E.Struct):
+    out = E.Struct()
+    for f_ in tree.fields():
+      setattr(out, f_, _tree_map(en, f, getattr(tree, f_), *[getattr(r, f_) for r in rest]))
+    return out
   if isinstance(tree, tuple) and not hasattr(tree, '_fields'):
     return tuple(_tree_map(en, f, t, *[r[i] for r in rest]) for i, t in enumerate(tree))
   if isinstance(tree, list):
